@@ -481,9 +481,17 @@ def c16_check(pre, post, log, fired, exp, status, observe):
     want = [(k, a, tuple(b) if isinstance(b, (list, tuple)) else b) for (k, a, b) in exp.trace]
     # (a) exact trace where the statement fixes it
     if not fired:
-        if exp.exc is None or exp.exc in ("TreeError", "TypeError") or (exp.exc == "LoopError" and exp.loop_at is None):
+        if exp.exc is None:
+            # successful calls and no-ops: the statement fixes the whole trace
             if plain != want:
                 return "trace", "hook trace %r, expected %r" % (plain, want)
+        elif exp.exc in ("TreeError", "TypeError") or (exp.exc == "LoopError" and exp.loop_at is None):
+            # refused up front: no link changes, hence no per-node hook may fire
+            # (whether a *_children hook fires before the refusal is not specified)
+            # (a constructor's parent part may already have run: `want` holds its events)
+            pernode = [e for e in plain if e[0] in PARENT_HOOKS]
+            if pernode != [e for e in want if e[0] in PARENT_HOOKS]:
+                return "trace", "refused call fired per-node hooks %r" % (pernode,)
         else:
             if plain[: len(want)] != want:
                 return "trace-prefix", "hook trace %r does not start with %r" % (plain, want)
@@ -753,7 +761,7 @@ def c02_judge(step, op, exp, status, excname, exc, fired, post, ideal, prop="C02
             "refused:%s:%s" % (op["op"], excname),
             "step %d %s raised %s: %s, must succeed" % (step, op, excname, exc),
         )
-    if exp.exc != "ANY" and excname != exp.exc:
+    if exp.exc != "ANY" and not refusal_matches(exc, exp.exc):
         raise Violation(
             prop,
             "refusal-class",
@@ -761,6 +769,20 @@ def c02_judge(step, op, exp, status, excname, exc, fired, post, ideal, prop="C02
             "refusal-class:%s:%s:%s" % (op["op"], exp.exc, excname),
             "step %d %s raised %s: %s; specified %s" % (step, op, excname, exc, exp.exc),
         )
+
+
+def refusal_matches(exc, want):
+    """TreeError means TreeError-but-not-LoopError (subclasses allowed), LoopError
+    and TypeError mean instances of those classes."""
+    from anytree import LoopError, TreeError
+
+    if want == "LoopError":
+        return isinstance(exc, LoopError)
+    if want == "TreeError":
+        return isinstance(exc, TreeError) and not isinstance(exc, LoopError)
+    if want == "TypeError":
+        return isinstance(exc, TypeError)
+    return type(exc).__name__ == want
 
 
 def diff_snap(a, b):
